@@ -4,7 +4,7 @@ import os
 import subprocess
 import time
 
-HV = "/verif/target/hv/release/hv"
+HV = os.path.join(os.path.dirname(os.path.dirname(os.path.abspath(__file__))), "target", "hv", "release", "hv")
 
 
 def run(tier, seed, scale, verif):
